@@ -532,7 +532,7 @@ func TestVerif(t *testing.T) {
 
 	// Group A. Thorough: all 16384. Quick: a PRNG-determined slice of them.
 	for k := 0; k < nExhaustive; k++ {
-		if !r.Thorough() && !r.Replaying() && prng.New(r.Seed(), uint64(k), "c01-slice").Intn(16) != 0 {
+		if !r.Thorough() && !r.Replaying() && prng.New(r.Seed(), uint64(k), "c01-slice").Intn(8) != 0 {
 			continue
 		}
 		r.Run(groupExhaustive+k, fmt.Sprintf("exh-%d", k), func(c *rep.Case) {
@@ -548,7 +548,7 @@ func TestVerif(t *testing.T) {
 	r.Set("exhaustive_plans_total", nExhaustive)
 
 	// Group B.
-	nB := r.N(1500, 150000)
+	nB := r.N(3000, 150000)
 	for k := 0; k < nB; k++ {
 		r.Run(groupSampled+k, fmt.Sprintf("sampled-%d", k), func(c *rep.Case) {
 			sc, pl := sampledCase(r.Seed(), k)
@@ -568,7 +568,7 @@ func TestVerif(t *testing.T) {
 	}
 
 	// Group C.
-	nC := r.N(400, 20000)
+	nC := r.N(800, 20000)
 	for k := 0; k < nC; k++ {
 		r.Run(groupReal+k, fmt.Sprintf("real-%d", k), func(c *rep.Case) {
 			runRealCase(t, r, c, k)
